@@ -703,5 +703,6 @@ pub fn parts() -> Vec<Box<dyn PartDyn>> {
         enumerate: None,
         shrink_budget: 250,
         confirm_runs: 3,
+            fuzz: None,
     })]
 }
